@@ -5,7 +5,8 @@ simplify() on the generated regular models, and dae_residual_function /
 initial_residual_function can be built (CasADi refuses free symbols) with one row per equation."""
 from . import c14, core
 
-THEOREMS = ["C15_square_constant_assignments", "C15_square_eliminable", "C15_closed_substitution",
+THEOREMS = ["C15_square_constant_assignments", "C15_square_eliminable", "C15_square_detect_aliases",
+            "C15_simplify_once_square", "C15_square", "C15_square_example", "C15_closed_substitution",
             "C15_closed_eliminable", "C15_closed_cyclic_refuted", "C15_example"]
 
 
